@@ -428,18 +428,36 @@ class Replay:
                         return False
             self.ctx.case((self.spec, self.origin, n, op), action='%s.%s' % (self.spec, op))
             self.track_norm(l, o)
-            if op == 'enlarge_mps_unit_cell':
-                per = self.psi.L // int(l['factor'])
-                self.alias_period = per if self.alias_period is None else int(np.gcd(per, self.alias_period))
+            # no two sites may share one stored tensor: a later in-place operation on one site (e.g. the rescaling in
+            # canonical_form_infinite1) would silently change the other.  Reported once per behaviour, replay continues.
             al = aliased_tensors(self.psi, self.alias_period)
             if al:
                 self.violation(op, 'aliased-tensors', dict(pairs=al), **sig)
-                return False
+                self.alias_period = 1
             if res.get('skip_state'):
                 continue
             if not self.compare_state(op, o, res, sig):
                 return False
         return True
+
+
+def fingerprint(psi):
+    """everything observable about an operand MPS: dense state, norm, forms, bond values, total charge, and per stored
+    tensor its labels, total charge and leg charges"""
+    legs = []
+    for B in psi._B:
+        legs.append((tuple(B.get_leg_labels()), tuple(int(q) for q in B.qtotal),
+                     tuple((int(l.qconj), tuple(l.slices.tolist()), tuple(map(tuple, l.charges.tolist()))) for l in B.legs),
+                     B.to_ndarray().tobytes()))
+    return dict(state=state_tensor(psi, 0, psi.L).tobytes(), norm=float(psi.norm), form=tuple(psi.form),
+                S=tuple(None if S is None else np.asarray(S).tobytes() for S in psi._S),
+                qtotal=tuple(int(q) for q in psi.get_total_charge()), tensors=tuple(legs), ids=tuple(id(B) for B in psi._B))
+
+
+def operand_changed(before, psi):
+    """names of the observables of an operand that differ from the fingerprint taken before the operation"""
+    after = fingerprint(psi)
+    return sorted(k for k in before if before[k] != after[k])
 
 
 def aliased_tensors(psi, period=None):
